@@ -16,7 +16,9 @@ argument of create_db / FeatureDB.update (not given, False, True, 'debug'); upda
 features; process history (imports that failed half-way earlier in the same process, with the same ids and other Parent
 links; a second create_db running inside the transform of the judged one); the documented pragmas argument of create_db /
 FeatureDB (absent, the defaults, defaults + foreign_keys='ON', other result-neutral settings) on files with dangling Parent
-values and children before their parents; the same file written with LF, CRLF and bare CR line ends (path, from_string, gzip).
+values and children before their parents; the same file written with LF, CRLF and bare CR line ends (path, from_string, gzip);
+ids of features with grandparents / grandchildren that hold a character GFF3 writes percent-encoded - every ASCII control
+character U+0001-U+001F / U+007F and ; = & , % in turn (klass "esc", make_escaped).
 
 Optional case fields (all replayable): "verboses" (one import per line order and value) or "verbose"; "split" (first k
 lines by create_db, the others by update); "prior" (specs of G.failing_prior, run before every judged import); "nested"
@@ -93,7 +95,13 @@ RULE = ("GFF3 annotation graphs: DAGs of 1-4 layers and <= 12 lines, every line 
         "with grandchildren first) renamed to words outside ASCII (Latin-1, Cyrillic, CJK, Hebrew, Greek, a non-BMP letter, the euro "
         "sign) and written percent-encoded into an ASCII-only file, imported by a child process started with LC_ALL/LANG = C or "
         "POSIX (or LC_CTYPE=C), PYTHONUTF8=0, PYTHONCOERCECLOCALE=0; the child prints a JSON summary (ids, relations table read with "
-        "plain sqlite3, children()/parents() of every feature at every level) that is judged against the model")
+        "plain sqlite3, children()/parents() of every feature at every level) that is judged against the model.  "
+        "'ids with characters that GFF3 writes percent-encoded': for EVERY character of ESCAPED_CHARS (the ASCII control characters "
+        "U+0001-U+001F and U+007F, and ; = & , %) 2 graphs [thorough: 6] with level-2 pairs in which a feature WITH grandparents "
+        "(and in 1 of 2 a feature with grandchildren, in 1 of 3 one more id / dangling Parent value) carries the character in front, "
+        "inside, at the end or twice in its id; in 1 of 3 graphs another feature is renamed to the part of such an id in front of / "
+        "behind the character; every id and Parent value is written percent-encoded (%1F, %3B, ...), 2-3 line orders, path / "
+        "from_string, ':memory:' / file; the expected ids and relatives are those of the decoded input text")
 REQUIRED = ["imports", "children()/parents() calls compared with the model", "relation rows compared",
             "level-2 rows compared", "argument-composition queries compared", "iter_by_parent_childs groups compared",
             "line-order pairs with identical relation sets", "dangling Parent values (no error, no phantom)",
@@ -160,7 +168,14 @@ REQUIRED = ["imports", "children()/parents() calls compared with the model", "re
             "threads: level-2 pairs of another thread's file over ids stored here too, confirmed absent here",
             "locale: imports under a preferred encoding that is not UTF-8",
             "locale: stored features with an id outside ASCII (percent-encoded in an ASCII file)",
-            "locale: level-2 rows with an id outside ASCII compared", "locale: databases equal to the Parent graph of their file"]
+            "locale: level-2 rows with an id outside ASCII compared", "locale: databases equal to the Parent graph of their file",
+            "escaped characters: stored features whose id holds an ASCII control character (written %XX)",
+            "escaped characters: stored features whose id holds one of ; = & , % (written %XX)",
+            "escaped characters: level-2 rows whose child id holds such a character compared",
+            "escaped characters: level-2 rows whose parent id holds such a character compared",
+            "escaped characters: non-empty children(level=2) results holding such an id compared",
+            "escaped characters: non-empty parents(level=2) results of a feature with such an id compared",
+            "escaped characters: imports in which another stored id is a part of such an id (split at the character)"]
 REQUIRED_CLASSES = ["ids=word", "ids=hostile", "Parent=comma list", "Parent=repeated keys", "order=children first",
                     "graph: multi-parent", "graph: level-2 pairs", "graph: dangling Parent", "graph: shortcut (level 1 and 2)",
                     "graph: two level-2 paths to one feature", "graph: wide (> 1000 direct children)",
@@ -184,7 +199,8 @@ REQUIRED_CLASSES = ["ids=word", "ids=hostile", "Parent=comma list", "Parent=repe
                     "non-NFC id: ANGSTROM SIGN", "non-NFC id: OHM SIGN", "non-NFC id: KELVIN SIGN",
                     "non-NFC ids: composed and decomposed spelling as two features, each with children",
                     "threads: files with the same ids and other Parent links", "threads: files with ids of their own",
-                    "threads: a ':memory:' target", "threads: a file target"]
+                    "threads: a ':memory:' target", "threads: a file target", "ids=escaped character"] + \
+                   ["escaped character in an id: U+%04X" % i for i in list(range(1, 32)) + [127] + [ord(c) for c in ";=&,%"]]
 ASSUMPTIONS = [
     "the reference model gvmon/models/hierarchy.py is a faithful reading of the statement: relatives are stored features "
     "only; level 2 = composition of two Parent edges; level None = union",
@@ -236,6 +252,10 @@ ASSUMPTIONS = [
     "the process locale is no input of the Parent graph: an ASCII-only GFF3 file whose ids are percent-encoded UTF-8 text imports "
     "without error under a C / POSIX locale with Python's UTF-8 mode off, and children()/parents() are the Parent graph over the "
     "decoded ids (a child process that reports a UTF-8 preferred encoding anyway is skipped and counted)",
+    "ids are the percent-DECODED text of the ID attribute (the GFF3 rule: control characters and ; = & , % are written %XX): an "
+    "id / Parent value may hold any ASCII control character U+0001-U+001F / U+007F or one of ; = & , % when the file writes it "
+    "percent-encoded; such characters are ordinary characters of an opaque id (no character is a separator inside an id); NUL and "
+    "raw (unencoded) control bytes are not generated",
     "interleaved generators: the database is not modified while they are alive; each generator is compared as a multiset "
     "with the same call consumed alone (the statement fixes no order without order_by) and with the model",
 ]
@@ -252,7 +272,65 @@ def setup(ctx):
 
 
 def tag(case):
+    if case.get("klass") == "esc":
+        return "ids with percent-encoded characters (%s): " % ", ".join(case.get("chars") or ())
     return "hostile-id class: " if case.get("ids") == "hostile" else ""
+
+
+# characters that GFF3 writes percent-encoded in column 9: the ASCII control characters (NUL left out) and ; = & , %
+ESCAPED_CHARS = [chr(i) for i in range(1, 32)] + [chr(127)] + list(";=&,%")
+ESCAPED_PUNCT = set(";=&,%")
+ESCAPED_EXCLUDED = set()     # characters taken out of the committed workload (none)
+
+
+def uname(ch):
+    return "U+%04X" % ord(ch)
+
+
+def make_escaped(rng, g, ch):
+    """Rename ids (consistently in every Parent list) so that they hold `ch`: always a feature with grandparents, in 1 of 2 a
+    feature with grandchildren, in 1 of 3 one more id / dangling value; in 1 of 3 another feature gets a PART of such an id.
+    Returns None when the graph has no level-2 pair, else {"renamed": n, "parts": n}."""
+    nodes = g["nodes"]
+    ids = [n["id"] for n in nodes]
+    visible = H.gff3_triples(nodes)[0]
+    low = sorted({c for p, c, lv in visible if lv == 2})
+    top = sorted({p for p, c, lv in visible if lv == 2})
+    if not low:
+        return None
+    dangling = sorted({p for n in nodes for p in n["parents"]} - set(ids))
+    picks = [rng.choice(low)]
+    if rng.random() < 0.5:
+        picks.append(rng.choice(top))
+    if rng.random() < 0.34:
+        picks.append(rng.choice(ids + dangling))
+    taken = set(ids) | set(dangling)
+    mapping, parts = {}, []
+    for old in picks:
+        if old in mapping:
+            continue
+        k = rng.randrange(1, len(old)) if len(old) > 1 else 1
+        new = rng.choice([ch + old, old + ch, old[:k] + ch + old[k:], old[:k] + ch + old[k:], old[:k] + ch + old[k:] + ch + "x",
+                          old + ch + rng.choice("AbZ9")])
+        if new in taken:
+            continue
+        mapping[old] = new
+        taken.add(new)
+        parts += [x for x in new.split(ch) if x]
+    nparts = 0
+    if mapping and rng.random() < 0.34:
+        others = [i for i in ids if i not in mapping]
+        rng.shuffle(others)
+        for old, part in zip(others[:rng.choice([1, 2])], rng.sample(parts, len(parts))):
+            if part not in taken:
+                mapping[old] = part
+                taken.add(part)
+                nparts += 1
+    for n in nodes:
+        n["id"] = mapping.get(n["id"], n["id"])
+        n["parents"] = [mapping.get(p, p) for p in n["parents"]]
+    g["edge"] = "pct"
+    return {"renamed": len(mapping) - nparts, "parts": nparts} if mapping else None
 
 
 _WIDE = {}
@@ -494,6 +572,7 @@ def one_import(ctx, case, oi, order, nodes, rel, lower, upper, verbose="absent",
     twin = {i: t for i, t in anon.items() if ntext[t] > 1}
     minority = mixed_minority(nodes)
     nonnfc = {i for i in byid if unicodedata.normalize("NFC", i) != i} if case.get("klass") == "nfc" else set()
+    esc = {i for i in byid if set(i) & set(ESCAPED_CHARS)} if case.get("klass") == "esc" else set()
     full_order = order
     T = tag(case)
     src = src2 = nsrc = None
@@ -670,6 +749,13 @@ def one_import(ctx, case, oi, order, nodes, rel, lower, upper, verbose="absent",
             ctx.mon("pragmas: level-2 rows compared (foreign_keys on)", sum(1 for r in rows if r[2] == 2))
         if case.get("klass") == "eol" and eol != "lf":
             ctx.mon("line ends: level-2 rows compared (%s)" % {"crlf": "CRLF", "cr": "bare CR"}[eol], sum(1 for r in rows if r[2] == 2))
+        if esc:
+            ctx.mon("escaped characters: stored features whose id holds an ASCII control character (written %XX)",
+                    sum(1 for i in esc if set(i) & (set(ESCAPED_CHARS) - ESCAPED_PUNCT)))
+            ctx.mon("escaped characters: stored features whose id holds one of ; = & , % (written %XX)",
+                    sum(1 for i in esc if set(i) & ESCAPED_PUNCT))
+            if any(part in byid for i in esc for c in set(i) & set(ESCAPED_CHARS) for part in i.split(c) if part):
+                ctx.mon("escaped characters: imports in which another stored id is a part of such an id (split at the character)")
         if len(rows) != len(table) or not (lower <= table <= upper):
             ctx.violation(case, {"why": T + "relations table differs from L1 u L2 of the Parent graph",
                                  "missing": sorted(lower - table)[:12], "unexpected": sorted(table - upper)[:12],
@@ -677,6 +763,11 @@ def one_import(ctx, case, oi, order, nodes, rel, lower, upper, verbose="absent",
             return None
         dangling = {p for p, c, lv in lower if p not in byid}
         ctx.mon("dangling Parent values (no error, no phantom)", len(dangling))
+        if esc:
+            ctx.mon("escaped characters: level-2 rows whose child id holds such a character compared",
+                    sum(1 for r in rows if r[2] == 2 and r[1] in esc))
+            ctx.mon("escaped characters: level-2 rows whose parent id holds such a character compared",
+                    sum(1 for r in rows if r[2] == 2 and r[0] in esc))
         # pairs a failed / nested import read under the same ids: both ends stored here, not related that way here
         foreign = [tuple(pc) for spec in case.get("prior") or () for pc in spec["pairs"]]
         if nested is not None:
@@ -732,6 +823,11 @@ def one_import(ctx, case, oi, order, nodes, rel, lower, upper, verbose="absent",
                         ctx.mon("non-empty relative sets compared")
                         if anon:
                             observe_idless(ctx, name, level, x, exp, anon, twin)
+                        if esc and level == 2:
+                            if name == "children" and esc & set(exp):
+                                ctx.mon("escaped characters: non-empty children(level=2) results holding such an id compared")
+                            if name == "parents" and x in esc:
+                                ctx.mon("escaped characters: non-empty parents(level=2) results of a feature with such an id compared")
                         if nonnfc:
                             if name == "children" and x in nonnfc:
                                 ctx.mon("non-NFC ids: non-empty children() results of a feature whose id is not in normal form C "
@@ -1283,6 +1379,12 @@ def classify(ctx, case):
     if klass == "confusable":
         ctx.classes["confusable ids: " + case["family"]] += 1
         return True
+    if klass == "esc":
+        for ch in case["chars"]:
+            ctx.classes["escaped character in an id: " + ch] += 1
+        if case.get("parts"):
+            ctx.classes["escaped character in an id: another id is a part of it"] += 1
+        return True
     if klass == "nfc":
         for fl in case["flavours"]:
             ctx.classes["non-NFC id: " + fl] += 1
@@ -1354,6 +1456,7 @@ def account(ctx, case):
            "mixed": "line orders imported (mixed spelling of several parents)",
            "confusable": "line orders imported (look-alike ids)",
            "nfc": "line orders imported (ids not in Unicode normal form C)",
+           "esc": "line orders imported (ids with characters that GFF3 writes percent-encoded)",
            "verbose": "imports (line order x verbose value)",
            "update": "imports (line order x verbose value; create_db + FeatureDB.update)",
            "history": "imports judged after a failed import / around a nested import",
@@ -1437,6 +1540,27 @@ def run(ctx):
             ctx.classes["hostile id: " + fl] += 1
         execute(ctx, case)
         account(ctx, case)
+    # 2b. ids holding a character that GFF3 writes percent-encoded: EVERY ASCII control character and ; = & , % in turn, always in
+    #     the id of a feature with grandparents (the enumeration is partitioned across the shards)
+    for r in range(6 if thorough else 2):
+        for i, ch in enumerate(ESCAPED_CHARS):
+            if not ctx.mine(i + r) or ch in ESCAPED_EXCLUDED:
+                continue
+            for _ in range(60):
+                g = G.graph(rng, max_nodes=9)
+                made = make_escaped(rng, g, ch)
+                if made:
+                    break
+            else:
+                ctx.mon("generator: no graph with a level-2 pair drawn (not imported)")
+                continue
+            n = len(g["nodes"])
+            case = {"kind": "graph", "klass": "esc", "ids": "escaped character", "chars": [uname(ch)], "parts": made["parts"],
+                    "graph": g, "qseed": rng.randrange(10 ** 9), "orders": G.sample_orders(rng, n, rng.choice([2, 3])),
+                    "nqueries": 3, "db": "file" if rng.random() < 0.15 else "memory",
+                    "input": "string" if rng.random() < 0.2 else "path"}
+            execute(ctx, case)
+            account(ctx, case)
     # 3. lines without an ID attribute, several of them byte-identical
     for i in range(ctx.budget(140, 2400)):
         g = G.graph(rng, max_nodes=10)
